@@ -270,7 +270,7 @@ def run_shard(ctx):
         nt, k = check_single(t, acc)
         ctx.stats.case(key=('s', t, acc), nontrivial=nt,
                        classes=['single-letters'] + (['single:messages'] if k else []),
-                       sample={'text': t, 'accept': acc, 'messages': k} if nt and ctx.stats.evaluations % 300 == 0 else None)
+                       sample={'text': t, 'accept': acc, 'messages': k})
     hyp_run(ctx, st.tuples(sl_text, sl_acc), single, ctx.n(50000, 1000000))
 
     def equation(args):
@@ -279,7 +279,7 @@ def run_shard(ctx):
         nt, k = check_equation(t, mode, lang)
         ctx.stats.case(key=('e', t, mode), nontrivial=nt,
                        classes=['equation-punctuation'] + (['equation:messages'] if k else []),
-                       sample={'text': t, 'mode': mode, 'lang': lang, 'messages': k} if nt and ctx.stats.evaluations % 300 == 0 else None)
+                       sample={'text': t, 'mode': mode, 'lang': lang, 'messages': k})
     hyp_run(ctx, st.tuples(st.sampled_from(['en', 'en', 'ru']),
                            st.sampled_from(['displayed', 'inline', 'all', 'd', 'disp', 'i', 'a', 'inl']), st.data()),
             equation, ctx.n(50000, 1000000), seed=ctx.shard_seed + 500)
